@@ -25,6 +25,7 @@ let table : (string * (z list -> z list)) list = [
   ("api_fuzz", (fun _ -> [Model.Zneg (Model.XI (Model.XO (Model.XO Model.XH)))]));
   ("stroke_geo", (fun _ -> [Model.Zneg (Model.XI (Model.XO (Model.XO Model.XH)))]));
   ("gather", run_gather);
+  ("pattern_reuse", (fun _ -> [Model.Zneg (Model.XI (Model.XO (Model.XO Model.XH)))]));
   ("stroke_repeat", (fun _ -> [Model.Zneg (Model.XI (Model.XO (Model.XO Model.XH)))]));
   ("tight_bounds", (fun _ -> [Model.Zneg (Model.XI (Model.XO (Model.XO Model.XH)))]));
   ("mask_ops", (fun _ -> [Model.Zneg (Model.XI (Model.XO (Model.XO Model.XH)))]));
